@@ -11,6 +11,10 @@ W: a table of cells = rule x syntactic context x tool.  Every mutant is ill-form
    `(+ "a" "b")`).  Each cell is instantiated at several sites (different base program, slot, catalogue variant).
    Controls: every base unmutated, and every statement a catalogue entry brings along, must be accepted, built
    and run by all three tools (else the run is inconclusive).
+   IMPORT dimension (state leaking between modules through the shared Environment is invisible to a single-file
+   table): for the rule/context pairs that are rejected in a single file (IMPORT_PAIRS) the same sites are also
+   placed in a main program that imports an ordinary module / a module declaring extern fns / a wrapper module with
+   an `unsafe module` import, and inside an imported module (main well-formed); context = `<context>+<import ctx>`.
    Known findings are individual cells: key `cell|<rule>|<context>|<tool>|<outcome class>`.
 
 Outcome classes per run:  rejected | rejected-late-by-cc (nanoc: no diagnostic of its own, the C compiler's
@@ -40,6 +44,7 @@ enum Color { Red, Green, Blue }
 union Sh { Circle { r: int }, Sq { s: int } }
 resource struct Res { fd: int }
 extern fn labs(x: int) -> int
+extern fn get_argc() -> int
 let gimm: int = 11
 let mut gmut: int = 12
 fn i2i(a: int) -> int {
@@ -936,7 +941,7 @@ def r_extern_nounsafe(T, D):
     if T != "int":
         return []
     return [("call (labs 3)", [], "(labs 3)"), ("call (labs D)", [], "(labs %s)" % _d(D, "int")), ("call (labs 0)", [], "(labs 0)"),
-            ("call (labs -4)", [], "(labs -4)")]
+            ("call (labs -4)", [], "(labs -4)"), ("call (get_argc)", [], "(get_argc)")]
 
 
 EXPR_RULES = [
@@ -972,6 +977,10 @@ def expr_variants(rule, fn, ctx, T, D):
                     out.append(v)
             if rule in ANYTYPE_RULES:
                 break
+        if rule == "extern-outside-unsafe":
+            # three variants, so that the >= 3 sites of a cell always include the bare `(get_argc)` call, which - unlike
+            # `(labs 3)` (cc: statement with no effect) - would also get through the C compiler if nanoc accepted it
+            out = [v for v in out if v[2] in ("(get_argc)", "(labs 3)", "(labs -4)")]
         return out
     if rule == "type-mismatch" and ctx in ANYOK_CONTEXTS:
         return []
@@ -1077,6 +1086,7 @@ IMPORT_CONTEXTS = list(IMPORT_CTX) + ["in-module"]
 # diagnostics of the module type check, which would make the control fail.
 MOD_PRELUDE = '''struct P { x: int, y: int }
 extern fn labs(x: int) -> int
+extern fn get_argc() -> int
 let gimm: int = 11
 let mut gmut: int = 12
 fn i2i(a: int) -> int {
@@ -1668,6 +1678,9 @@ def run(ctx):
 
         # ---- the table ---------------------------------------------------------------------------------------
         cells, ncand = build_cells(bases, nsites, lambda *a: ctx.rng("cell", *a))
+        if os.environ.get("NLV_C05_RULES"):      # development: only these rules (the size requirements below will not hold)
+            only = set(os.environ["NLV_C05_RULES"].split(","))
+            cells = {k: v for k, v in cells.items() if k[0] in only}
         mutants = [m for k in sorted(cells) for m in cells[k]]
         for i, m in enumerate(mutants):
             m.n = i
